@@ -865,6 +865,9 @@ func c01BudgetOn(p *Prog, a *Anchors, r *Report, key string) {
 		if n == nil || (n.Obj().Name() != "Parser" && n.Obj().Name() != "Template") {
 			return ""
 		}
+		if m := c01MarkOf(p, fa); m != nil {
+			return m.of // (a high-water mark of a counter bounds what the counter bounds, not something beside it)
+		}
 		return n.Obj().Name() + "." + fieldName(fa.X.Type(), fa.Field)
 	}
 	for _, f := range p.inPkgFuncsSorted(p.allFuncSet()) {
@@ -1429,6 +1432,11 @@ func ruleC01CounterWrites(p *Prog, a *Anchors, r *Report) {
 					case *ssa.UnOp:
 						if same(x) {
 							return "the same counter of another object (or its own earlier value)"
+						}
+						if m := c01MarkOf(p, fa); m != nil {
+							if va, vn, ok := c01FieldLoad(x); ok && vn.Obj().Name() == m.T && va.Field == m.ofIdx {
+								return "the counter it is the high-water mark of (raised to it, or started at it for an operand: R-C01-HEIGHT decides that the earlier mark is handed back)"
+							}
 						}
 						if sv := stripLoad(x); sv != ssa.Value(x) {
 							return okVal(sv, d+1)
